@@ -659,6 +659,17 @@ func (f *fx) assumeTyped(st *State, v Term, t types.Type) {
 				f.sc.assert(T("Bool", "(<= %s 255)", v.S))
 			}
 		}
+	case *types.Struct:
+		// struct values: the same facts for every field (references and slices held in struct values are allocated)
+		if info := f.e.sorts.structInfo[f.e.sorts.sortOf(t)]; info != nil && len(v.S) < 400 {
+			for i := 0; i < u.NumFields() && i < len(info.Fields); i++ {
+				ft := u.Field(i).Type()
+				switch ft.Underlying().(type) {
+				case *types.Pointer, *types.Map, *types.Chan, *types.Slice, *types.Struct:
+					f.assumeTyped(st, app(info.FSorts[i], info.Fields[i], v), ft)
+				}
+			}
+		}
 	case *types.Interface:
 		f.sc.assert(T("Bool", "(and (<= 0 (itag %s)) (=> (= (itag %s) 0) (= (ival %s) 0)))", v.S, v.S, v.S))
 		if u.NumMethods() > 0 {
